@@ -1,4 +1,5 @@
 import BU.Properties.C02
+import BU.Properties.C02_Gen
 #print axioms C02.tables_ok
 #print axioms C02.op_push_data_eq_spec
 #print axioms C02.push_integer_eq_spec
@@ -17,3 +18,8 @@ import BU.Properties.C02
 #print axioms C02.disasm_assemble
 #print axioms C02.reassemble
 #print axioms C02.assemble_disasm_reassemble_gen
+#print axioms C02Gen.forIn_append
+#print axioms C02Gen.accum_eq_scriptBytes
+#print axioms C02Gen.body_eq
+#print axioms C02Gen.gen_script_to_bytes
+#print axioms C02Gen.gen_assemble
